@@ -93,6 +93,23 @@ def spec_from_partial(model, fv, call: ast.Call):
 
 def spec_from_call(model, fv, call: ast.Call, item: str):
     t = model.callee(fv.mod, call) or U(call.func)
+    base = None
+    if isinstance(call.func, ast.Name):
+        # a local name bound once to functools.partial(T, *fixed, **kw): the call applies T(*fixed, *args, **kw, **kwargs)
+        for st_ in fv.statements():
+            if isinstance(st_, (ast.Assign, ast.AnnAssign)) and st_.value is not None and isinstance(st_.value, ast.Call):
+                tg_ = st_.targets[0] if isinstance(st_, ast.Assign) else st_.target
+                if isinstance(tg_, ast.Name) and tg_.id == call.func.id:
+                    base = spec_from_partial(model, fv, st_.value) if base is None else False
+    if base:
+        inner = spec_from_call_plain(base.target, call, item)
+        if inner is None or set(inner.kws) & set(base.kws):
+            return None
+        return CallSpec(base.target, list(base.fixed) + list(inner.fixed), {**base.kws, **inner.kws}, list(base.star) + list(inner.star))
+    return spec_from_call_plain(t, call, item)
+
+
+def spec_from_call_plain(t, call: ast.Call, item: str):
     fixed = []
     seen_item = False
     for a in call.args:
@@ -139,7 +156,7 @@ def _block_statements(body):
             yield from _block_statements(s.body)
 
 
-def arm_result(fv, arm_body, want_name=None, only=None):
+def arm_result(fv, arm_body, want_name=None, only=None, pre=()):
     """(result name, value expression, statement) for an arm: either a plain assignment or an
     empty-list initialisation followed by an appending loop (returned as a comprehension).
     Names that merely alias another expression of the arm are expanded."""
@@ -148,6 +165,11 @@ def arm_result(fv, arm_body, want_name=None, only=None):
     stmts = list(_block_statements(arm_body))
     alias = {}
     inits = {}
+    for s in pre:  # an empty result list created before the branch and filled by both arms
+        if isinstance(s, (ast.Assign, ast.AnnAssign)) and s.value is not None and isinstance(s.value, ast.List) and not s.value.elts:
+            tg = s.targets[0] if isinstance(s, ast.Assign) else s.target
+            if isinstance(tg, ast.Name):
+                inits[tg.id] = s
     for s in stmts:
         if isinstance(s, (ast.Assign, ast.AnnAssign)):
             tg = s.targets[0] if isinstance(s, ast.Assign) else s.target
@@ -234,7 +256,7 @@ def analyse_serial(model, fv, value):
     return spec, it, sorted(filters)
 
 
-def analyse_parallel(ctx, model, fv, fi, arm_body, site):
+def analyse_parallel(ctx, model, fv, fi, arm_body, site, pre=()):
     """Find executor.map in the parallel arm. Returns (spec, iter, filters, node) or
     records a violation and returns None."""
     calls = []
@@ -279,7 +301,7 @@ def analyse_parallel(ctx, model, fv, fi, arm_body, site):
     stmt = si.statement(mp)
     consumer_ok, filters, res = False, [], None
     mp_txt = U(mp)
-    for name, v, st in arm_result(fv, arm_body, only=lambda val: mp_txt in U(val)):
+    for name, v, st in arm_result(fv, arm_body, only=lambda val: mp_txt in U(val), pre=pre):
         if mp_txt not in U(v):
             continue
         if isinstance(v, ast.Call) and dotted(v.func) in ("list", "tuple") and len(v.args) == 1 and U(v.args[0]) == mp_txt:
@@ -449,17 +471,29 @@ def check_split(ctx: Ctx, fi, ifnode):
                 serial_body, parallel_body = ifnode.body, ifnode.orelse
             elif isinstance(test.ops[0], ast.NotEq):
                 serial_body, parallel_body = ifnode.orelse, ifnode.body
+    # guard-clause form: `if num_processes == 1: …; return r` followed by the parallel code
+    from ..normalize import always_exits
+
+    blk_p = stmt_index(fv).parent.get(id(ifnode))
+    block = fi.node.body if blk_p is None or blk_p[0] is None else getattr(blk_p[0], blk_p[1])
+    pos = [i for i, x in enumerate(block) if x is ifnode]
+    pre = list(block[:pos[0]]) if pos else []
+    rest = list(block[pos[0] + 1:]) if pos else []
+    if serial_body is not None and not parallel_body and always_exits(serial_body) and rest:
+        parallel_body = rest
+    elif parallel_body is not None and not serial_body and always_exits(parallel_body) and rest:
+        serial_body = rest
     if serial_body is None or not parallel_body:
         ctx.undecided("PARMAP", site + ":split", (fi, ifnode), f"serial/parallel split not recognised: {U(test)}")
         return
-    par = analyse_parallel(ctx, model, fv, fi, parallel_body, site)
+    par = analyse_parallel(ctx, model, fv, fi, parallel_body, site, pre=pre)
     if par is None:
         return
     pspec, piter, pfilters, mp, pres = par
     check_workers(ctx, fi, parallel_body, site)
     check_shared(ctx, pspec.target, len(pspec.fixed), site + ":shared")
     # serial: assignment to the same result variable
-    sres = arm_result(fv, serial_body, want_name=pres, only=lambda val: isinstance(val, (ast.GeneratorExp, ast.ListComp)) or (isinstance(val, ast.Call) and dotted(val.func) in ("list", "tuple", "display_progress")))
+    sres = arm_result(fv, serial_body, want_name=pres, pre=pre, only=lambda val: isinstance(val, (ast.GeneratorExp, ast.ListComp)) or (isinstance(val, ast.Call) and dotted(val.func) in ("list", "tuple", "display_progress")))
     if not sres:
         ctx.violate("PARMAP", site + ":same-result", (fi, ifnode), f"the serial branch does not assign the result variable `{pres}` that the parallel branch assigns")
         return
